@@ -6,7 +6,7 @@ import os
 import struct
 
 from vf.core import SECTOR, Model, as_handle, rng_for
-from vf.diskcheck import compare_reads, continuation_reads, fault_retry_reads, crossing_count, gen_requests, mismatch_detail
+from vf.diskcheck import closed_handle_reads, compare_reads, continuation_reads, fault_retry_reads, crossing_count, gen_requests, mismatch_detail
 from vf.monitors import call
 from vf.writers import vhdx as w
 
@@ -120,6 +120,18 @@ def run(case: dict, ctx) -> dict:
     res = {"cnt": {}, "viol": [], "sets": {}}
     rng = rng_for(ctx.seed, ID, case["k"], case.get("i"), case.get("name"))
     k = case["k"]
+    if rng.random() < 0.12:
+        # in the same process, just before: an image the reader refuses (a required region / metadata item it does not know, a
+        # damaged signature). Whatever it learned from that file is of no concern to the next one.
+        how = rng.choice(["region", "item", "signature"])
+        g_ = bytes(rng.randrange(256) for _ in range(16))
+        bad, _, _ = w.build(rng, block_size=1 << 20, sector_size=512, nblocks=2, states=[6, 0], tag=1, checksums=False,
+                            extra_regions=[(g_, 1)] if how == "region" else (), extra_items=[(g_, b"opaque", 7)] if how == "item" else ())
+        braw = bytearray(bad.to_bytes())
+        if how == "signature":
+            braw[0] ^= 0x20
+        ob = call(lambda: VHDX(as_handle(bytes(braw))).read(512))
+        res["cnt"]["refused_images_opened_first"] = int(not ob.ok)
     if k == "fixture":
         raw = gzip.open(os.path.join(DATA, case["name"])).read()
         model = RefVHDX(raw)
@@ -195,7 +207,7 @@ def run(case: dict, ctx) -> dict:
         rng, block_size=bs, sector_size=ss, nblocks=n, tail_cut_sectors=tail, states=states, placement=placement,
         tag=rng.getrandbits(48), seqs=rng.choice([(5, 9), (9, 5), (1, 2), (2**40, 3)]), stale=rng.choice(["valid", "valid", "zero"]),
         meta_item_order=rng.choice([None, "shuffle", "rev"]), item_gap=rng.choice([0, 0, 8, 4096]),
-        leave_alloc=rng.random() < 0.4, items_at_region_end=rng.random() < 0.25,
+        leave_alloc=rng.random() < 0.4, items_at_region_end=rng.random() < 0.25, regions_last=rng.random() < 0.2,
         locator=w.parent_locator([("parent_linkage", "{83ed0ec1-24c8-49a6-a959-5e4bd1288015}"), ("relative_path", ".\\former parent.vhdx"),
                                   ("absolute_win32_path", "C:\\vm\\former parent.vhdx")], rng=rng) if rng.random() < 0.15 else None,
         # regions and metadata items of unknown type that are not marked required: a reader skips them
@@ -251,6 +263,8 @@ def run(case: dict, ctx) -> dict:
             res["viol"].append({"what": "read_sectors content mismatch", "mech": MECH, "detail": mismatch_detail(s0 * ss, c * ss, o2.value, exp)})
     if fh.mutations:
         res["viol"].append({"what": "handle mutated", "mech": "c09.handle", "detail": {"m": fh.mutations[:3]}})
+    if case.get("i", 0) % 4 == 0 and sf.end <= (256 << 20):
+        closed_handle_reads(v, model, [fh], reqs, rng, res, MECH)
     pos = {int(a): b for a, b in meta["pos_mb"].items()}
     st = meta["states"]
     nonadj = 0
